@@ -15,6 +15,7 @@ def x509signDispatch (toks : List String) : Option String :=
   | ["certrt", s, a, _] => some (acc s a)
   | ["csrrt", s, a, _] => some (acc s a)
   | ["crlrt", s, a, _, _] => some (acc s a)
+  | ["dsasigv", _] => some "ok"     -- intrinsic oracle in the harness (DSA branch of checkSignature; Props.C09Sig is its decoding step)
   | ["issue2", _] => some "ok"
   | ["tmplreuse", _] => some "ok"   -- intrinsic oracle in the harness: SM2 signer, algorithm left to default
   | _ => none
